@@ -42,6 +42,26 @@ type simConn struct {
 	inTx bool
 }
 
+// mainFault consults mainDrvFault for the operations other than row fetches (Begin, Query, Exec, Commit, Rollback).
+func mainFault(op, arg string) error {
+	if f := mainDrvFault; f != nil {
+		return f(op, arg)
+	}
+	return nil
+}
+
+func firstArg(args []driver.NamedValue) string {
+	if len(args) > 0 {
+		switch v := args[0].Value.(type) {
+		case string:
+			return v
+		case []byte:
+			return string(v)
+		}
+	}
+	return ""
+}
+
 func drvSeam(op string) string {
 	if drvHook != nil {
 		drvHook(op, false)
@@ -67,6 +87,9 @@ func (c *simConn) Begin() (driver.Tx, error) {
 }
 
 func (c *simConn) BeginTx(ctx context.Context, o driver.TxOptions) (driver.Tx, error) {
+	if err := mainFault("Begin", ""); err != nil {
+		return nil, err
+	}
 	switch k := drvSeam("Begin"); k {
 	case "":
 	case "badconn":
@@ -84,6 +107,9 @@ func (c *simConn) BeginTx(ctx context.Context, o driver.TxOptions) (driver.Tx, e
 }
 
 func (c *simConn) QueryContext(ctx context.Context, q string, args []driver.NamedValue) (driver.Rows, error) {
+	if err := mainFault("Query", firstArg(args)); err != nil {
+		return nil, err
+	}
 	if k := drvSeam("Query"); k != "" {
 		return nil, injected(k)
 	}
@@ -129,6 +155,9 @@ func (s *simRows) Next(dest []driver.Value) error {
 }
 
 func (c *simConn) ExecContext(ctx context.Context, q string, args []driver.NamedValue) (driver.Result, error) {
+	if err := mainFault("Exec", firstArg(args)); err != nil {
+		return nil, err
+	}
 	if k := drvSeam("Exec"); k != "" {
 		return nil, injected(k)
 	}
@@ -148,6 +177,10 @@ func (t *simTx) Commit() error {
 	if t.c != nil {
 		defer func() { t.c.inTx = false }()
 	}
+	if err := mainFault("Commit", ""); err != nil {
+		_ = t.tx.Rollback()
+		return err
+	}
 	if k := drvSeam("Commit"); k != "" {
 		_ = t.tx.Rollback() // go-sqlite3 rolls back itself after a failed COMMIT
 		return injected(k)
@@ -166,6 +199,9 @@ func (t *simTx) Rollback() error {
 	drvAfter("Rollback")
 	if k != "" && k != "abort" {
 		return injected(k)
+	}
+	if ferr := mainFault("Rollback", ""); ferr != nil {
+		return ferr
 	}
 	return err
 }
